@@ -20,7 +20,8 @@ RULE = ("newton.jac cases (Mat64::jacobian and Matrix::<Cmplx>::jacobian_cmplx):
         "imaginary); coordinates -delta, +delta, -2 delta, 0 (perturb and restore pass through exact zero), all coordinates equal, "
         "coordinates at the ends +-4; affine maps whose matrix is a (rectangular) identity, a permutation, all +-1 / +-i, has zero ROWS "
         "(constant components) or a single entry; "
-        "compared: shape, entries, number and SEQUENCE of call points; distinct = distinct executor line; non-trivial = m, n >= 1")
+        "compared: shape, entries, number and SEQUENCE of call points (a NaN / infinite entry or call point is a failure wherever the reference "
+        "value is finite: every comparison has the form not (err <= tol)); distinct = distinct executor line; non-trivial = m, n >= 1")
 TRUSTED = ["Coq 8.16.1 kernel + vm_compute (primitive floats)", "Rust executor /verif/harness (k_newton.rs, fnast.rs)",
            "python driver (generators, AST printers fnlib.py, symbolic-derivative oracle, comparators)",
            "hand-written Gallina model coq/Model/Newton.v (jacobian) on coq/Model/Matrix.v (set_col), tied to src/matrix/functions.rs by differential execution"]
@@ -302,13 +303,13 @@ def oracle(case, items):
         if len(p) != n:
             return "call %d has %d coordinates, expected %d" % (j + 1, len(p), n)
         want = x[j] + dd
-        if not same_bits(p[j], want) and _abs(p[j] - want) > 2 * ulp(_abs(want)):
+        if not same_bits(p[j], want) and not (_abs(p[j] - want) <= 2 * ulp(_abs(want))):     # NaN / inf call points are rejected
             return "call %d: coordinate %d is %r, expected x_j + delta = %r" % (j + 1, j, p[j], want)
         for i in range(n):
             if i == j: continue
             slack = 0.0 if i > j else 2 * ulp(_abs(x[i]) + delta)     # i < j: restored (x+d)-d may drift by an ulp
             if meta.get("kind") == "affine" and meta.get("dyadic") and dyadic: slack = 0.0
-            if _abs(p[i] - x[i]) > slack:
+            if not (_abs(p[i] - x[i]) <= slack):
                 return ("call %d (perturbing coordinate %d): coordinate %d is %r, expected %r -- a coordinate was not restored "
                         "before the next one was perturbed" % (j + 1, j, i, p[i], x[i]))
     # ---- entries are the forward quotients of the recorded calls
@@ -318,10 +319,12 @@ def oracle(case, items):
         for i in range(m):
             want = (fj[i] - f0[i]) / dd
             got = J[i * n + j]
-            if not (finite(want) and finite(got)):
-                continue
+            if not finite(want):
+                continue                    # the quotient itself overflows / is undefined: nothing is stated
+            if not finite(got):
+                return "entry (%d,%d) = %r is not finite although the forward quotient (f_i(x + delta e_j) - f_i(x)) / delta = %r is" % (i, j, got, want)
             tol = 1e-11 * (_abs(fj[i]) + _abs(f0[i])) / delta + 1e-300
-            if _abs(got - want) > tol:
+            if not (_abs(got - want) <= tol):
                 return "entry (%d,%d) = %r is not the forward quotient (f_i(x + delta e_j) - f_i(x)) / delta = %r" % (i, j, got, want)
     # ---- exact on affine maps; O(delta) on smooth maps
     if meta.get("kind") == "affine":
@@ -330,11 +333,11 @@ def oracle(case, items):
             for j in range(n):
                 got, want = J[i * n + j], M[i * n + j]
                 if meta.get("dyadic") and dyadic:
-                    if got != want:
+                    if not (finite(got) and got == want):
                         return "affine map on dyadic data, delta = 2^%d: entry (%d,%d) = %r, expected exactly %r" % (math.frexp(delta)[1] - 1, i, j, got, want)
                 else:
                     av = absval(es[i], [abs(t) + delta for t in x])
-                    if _abs(got - want) > 16 * depth(es[i]) * EPS * av / delta:
+                    if not finite(got) or not (_abs(got - want) <= 16 * depth(es[i]) * EPS * av / delta):
                         return "affine map: entry (%d,%d) = %r differs from %r by more than rounding" % (i, j, got, want)
     else:
         for i in range(m):
@@ -346,7 +349,9 @@ def oracle(case, items):
                 av = absval(es[i], [abs(t) + delta for t in x])
                 bound = delta * curv + 16 * depth(es[i]) * EPS * av / delta + 1e-300
                 got = J[i * n + j]
-                if finite(want) and finite(got) and _abs(got - want) > bound:
+                # a non-finite entry whose forward quotient is finite was reported above; a non-finite bound (pole of f'' in the
+                # cell) states nothing
+                if finite(want) and finite(got) and finite(bound) and not (_abs(got - want) <= bound):
                     return ("smooth map: entry (%d,%d) = %r is not within delta*max|f''| + rounding = %g of the analytic derivative %r"
                             % (i, j, got, bound, want))
     return None
